@@ -576,3 +576,24 @@ def run(ctx):
                   "window end is the action context's deadline, compared on the steady clock", "timeout test is " + t[:120])
     if not n_cmp:
         ctx.violation("timeout-from-action-context", "value-shape", ppt.loc(), "pastPrekillHookTimeout never compares the clock with the deadline")
+    # ... in the clock's own resolution: neither pastPrekillHookTimeout nor any NEW helper it goes through converts the remaining time
+    # to a coarser unit first (duration_cast<seconds> truncates towards zero: the window would count as over during its whole last
+    # second, and the victim is signalled while its hook is still running inside the window)
+    from ..inline import known_functions
+    kn_ = known_functions()
+    scope_ = [ppt]
+    if kn_ is not None:
+        for u_ in ctx.cg.reach([ppt.usr]):
+            h_ = P.fns[u_]
+            if h_ is not ppt and h_.file.startswith("oomd/") and h_.kind != "lambda" and plain(h_.d.get("qname", "")) not in kn_[0]:
+                scope_.append(h_)
+    for h_ in scope_:
+        ctx.use(h_)
+        for i_ in h_.calls():
+            c_ = plain(h_.nodes[i_].get("callee") or "")
+            if re.match(r"^std::chrono::(duration_cast|floor|ceil|round|time_point_cast)$", c_):
+                ctx.violation("timeout-in-clock-resolution:%s@%d" % (short(h_), h_.nodes[i_].get("line", 0)), "who-may-call (helpers followed)", h_.loc(i_),
+                              "the prekill-hook window test goes through %s in %s: the remaining time is rounded to a coarser unit before it is tested, so 'the window is "
+                              "over' is answered up to one unit early (whole seconds: during the entire last second) and the victim is signalled while its hook is still "
+                              "running inside the window" % (c_, h_.pq))
+    ctx.ok("timeout-in-clock-resolution", "who-may-call (helpers followed)", ppt.loc(), "%d function(s) on the window test: no unit conversion" % len(scope_))
